@@ -131,7 +131,10 @@ def gen_history(rng: random.Random):
     voters = []
     for i in range(n):
         proto = protos[i] if i < k else r.choice(protos)
-        voters.append({"steps": gen_voter_steps(r, btype, proto, names), "name": r.choice(["", "v%d" % i, "voter"]), "meta": r.choice([{}, {"district": "d%d" % (i % 3)}, {"age": "3%d" % i, "x": "y"}])})
+        voters.append({"steps": gen_voter_steps(r, btype, proto, names), "name": r.choice(["", "v%d" % i, "voter"]), "meta": r.choice([{}, {"district": "d%d" % (i % 3)}, {"age": "3%d" % i, "x": "y"}]),
+                       # how the frozen ballot of this voter is constructed: ballot.frozen(), or the frozen class called directly on the
+                       # content in a shuffled order (tuple / list), on another frozen ballot, or as a concatenation of two frozen halves
+                       "fmode": r.choice(["frozen"] * 6 + ["direct_tuple", "direct_list", "from_frozen", "concat"]), "fseed": r.getrandbits(16)})
     r.shuffle(voters)
     kind = r.choice(["conv", "conv", "ctor", "empty"])
     n0 = 0 if kind == "empty" else r.randint(0, n)
@@ -276,25 +279,49 @@ def worker_run(h):
             else:
                 b.append(projs[st[1]])
         ballots.append(b)
+    FROZ = {"app": e.FrozenApprovalBallot, "card": e.FrozenCardinalBallot, "cum": e.FrozenCumulativeBallot, "ord": e.FrozenOrdinalBallot}[bt]
+    fmodes = {id(b): (v.get("fmode", "frozen"), v.get("fseed", 0)) for b, v in zip(ballots, h["voters"])}
+
+    def freeze(b):
+        mode, fs = fmodes[id(b)]
+        if mode == "frozen":
+            return b.frozen()
+        rr = random.Random(fs)
+        if mode == "from_frozen":
+            return FROZ(b.frozen())
+        if bt in ("card", "cum"):
+            items = list(b.items())
+            rr.shuffle(items)
+            return FROZ(dict(items), name=b.name, meta=b.meta)
+        if bt == "app":
+            items = list(b)
+            rr.shuffle(items)
+        else:
+            items = list(b)  # a ranking: the order is the content
+        if mode == "concat" and len(items) >= 2:
+            k = rr.randint(1, len(items) - 1)
+            return FROZ(tuple(items[:k]), name=b.name, meta=b.meta) + FROZ(tuple(items[k:]), name=b.name, meta=b.meta)
+        return FROZ(tuple(items) if mode == "direct_tuple" else list(items), name=b.name, meta=b.meta)
+
     n0 = h["start"]["n"]
     kind = h["start"]["kind"]
     if kind == "conv":
         mp = PROF(ballots[:n0], instance=inst).as_multiprofile()
     elif kind == "ctor":
-        mp = MULTI([b.frozen() for b in ballots[:n0]], instance=inst)
+        mp = MULTI([freeze(b) for b in ballots[:n0]], instance=inst)
     else:
         mp = MULTI(instance=inst)
     for op in h["ops"]:
         bs = [ballots[i] for i in op["voters"]]
         if op["op"] == "append":
-            mp.append(bs[0].frozen())
+            mp.append(freeze(bs[0]))
         elif op["op"] == "extend":
             mp.extend(bs)
         elif op["op"] == "extend_frozen":
-            mp.extend([b.frozen() for b in bs])
+            mp.extend([freeze(b) for b in bs])
         else:
             mp.extend(PROF(bs, instance=inst))
-    frozen = [b.frozen() for b in ballots]
+    frozen = [freeze(b) for b in ballots]
     obs = {
         "type": type(mp).__name__,
         "len": len(mp),
